@@ -179,6 +179,8 @@ def run(F, R):
                 proof = prove_overflow(bv, s_, env_by_body[bv.id])
             if proof is None:
                 proof = _param_env_proof(W, reachable, bv, s_, env_by_body)
+        elif desc == "assert:OverflowNeg":
+            proof = census.prove_neg_nonneg(bv, s_)
         elif desc in ("assert:DivisionByZero", "assert:RemainderByZero"):
             proof = _nonzero_divisor(W, reachable, bv, s_, env_by_body)
         elif desc == "assert:BoundsCheck":
